@@ -251,6 +251,9 @@ fn judge_place(rec: &mut Recorder, c: &place::PlaceCase, ex: Exec, _hello: &Valu
             return rec.fail(&format!("{prop}/native-place/sibling-faked-earlier-no-longer-reaches-its-fake"), format!("a function in the same page as the target was faked first (its fake yields {want}); after the installation under test a call of it returned {got}; case {c:?}"));
         }
     }
+    if o.resealed {
+        rec.class("target-pages-resealed-by-their-owner-after-earlier-installations");
+    }
     if o.sibling_faked {
         if o.target_addr & 0xFFF == 0 {
             rec.class("sibling-in-the-same-page-faked-first/page-aligned-target");
@@ -445,15 +448,28 @@ fn cmd_hist(prop: &str) -> i32 {
             let thorough = vcommon::tier() == vcommon::Tier::Thorough;
             run_sharded(&mut rec, 12, n, shards(), "hist", optv, Duration::from_secs(600), move || {
                 use proptest::prelude::*;
-                (hist::strategy_all(3, 8, false, false, 0.0, 0.25), if thorough { 1u32..=4000 } else { 1u32..=120 }, any::<bool>()).prop_map(|(mut c, r, many)| {
+                (hist::strategy_all(3, 8, false, false, 0.0, 0.25), if thorough { 1u32..=4000 } else { 1u32..=120 }, any::<bool>(), prop::collection::vec(prop_oneof![4 => Just(0u8), 1 => 1u8..=3], 3)).prop_map(|(mut c, r, many, races)| {
                     c.repeat = if many { r } else { 1 + r % 4 };
+                    // (one lifetime in five: somebody else maps a hinted page first)
+                    for (l, k) in c.lifetimes.iter_mut().zip(races) {
+                        l.race_map = k;
+                    }
                     c
                 })
             }, hist_judge::judge_c12, |c| json!({"HistCase": c, "opts": "C12"}));
         }
         "C17" => {
             let n = cases(3200, 80_000);
-            run_sharded(&mut rec, 17, n, shards(), "hist", optv, Duration::from_secs(60), || hist::strategy_full(2, 6, true, false, 0.08), hist_judge::judge_c17, |c| json!({"HistCase": c, "opts": "C17"}));
+            run_sharded(&mut rec, 17, n, shards(), "hist", optv, Duration::from_secs(60), || {
+                use proptest::prelude::*;
+                // (one lifetime in eight meets a failing munmap while its injector goes out of scope)
+                (hist::strategy_full(2, 6, true, false, 0.08), prop::collection::vec(prop_oneof![7 => Just(0u8), 1 => 1u8..=2], 2)).prop_map(|(mut c, f)| {
+                    for (l, v) in c.lifetimes.iter_mut().zip(f) {
+                        l.munmap_fault = v;
+                    }
+                    c
+                })
+            }, hist_judge::judge_c17, |c| json!({"HistCase": c, "opts": "C17"}));
         }
         _ => {
             let n = cases(4000, 120_000);
